@@ -40,7 +40,7 @@ func init() {
 		},
 		Rule: "case = one threaded entry point (Compare plain/tips/identical-only, CompareWeighted, FBP, TBE, TBE with moved-taxa statistics) x one " +
 			"workload (8 trees x 12 taxa, 100 x 30, 400 x 60) x one delay policy at the verifhook points (none, random yield/sleep, one slow worker, " +
-			"barrier after the first receive), run with 1 thread and then with 2,3,4,8,16 and #trees+5 threads under the race detector; error cases put an " +
+			"barrier after the first receive), run with 1 thread and then with 2,3,4,8,16, #trees+5 and #branches+6 threads under the race detector; error cases put an " +
 			"Err item, a duplicate-name tree or a taxon-mismatched tree first, in the middle or last; the commands compare trees (plain, --weighted) and compute support fbp|tbe are run as child processes (-t 1, 4, 16) on a file with one unparsable / duplicate-name / taxon-mismatched tree: non-zero exit, no crash, no blocked process. Monitors: per-id equality with the 1-thread " +
 			"records, exactly-once multiset checker over results and hook events, goroutine-state deadlock detector, race-log parser. " +
 			"non-trivial = at least two workers held a tree at the same time in some run of the case (measured from the hook event log), or, for TBE, " +
@@ -508,7 +508,8 @@ func c11Compare(o *Obs, fn string, threads int, pol string, base, got *c11Result
 	}
 }
 
-func c11Threads(n int) []int { return []int{2, 3, 4, 8, 16, n + 5} }
+// thread counts: small, the number of cores, more threads than trees, and more threads than reference branches
+func c11Threads(n, ntax int) []int { return []int{2, 3, 4, 8, 16, n + 5, 2*ntax + 3} }
 
 func c11Normal(c *Ctx, o *Obs, r *rand.Rand, fn string, ntrees, ntax int, pol string, rep int) {
 	if strings.HasPrefix(fn, "tbe") && ntrees > 100 {
@@ -531,7 +532,7 @@ func c11Normal(c *Ctx, o *Obs, r *rand.Rand, fn string, ntrees, ntax int, pol st
 		return
 	}
 	o.Ev("calls", 1)
-	for ti, th := range c11Threads(ntrees) {
+	for ti, th := range c11Threads(ntrees, ntax) {
 		rc := newRecorder(pol, r.Int63(), minInt(th, ntrees))
 		h := verifhook.Handler(rc.handle)
 		verifhook.Set(h)
